@@ -19,7 +19,8 @@ def _limits(mem_gb):
     def f():
         os.setsid()
         if mem_gb:
-            lim = int(mem_gb * (1 << 30))
+            # generous address-space backstop; the real limit is the resident-set watchdog in Proc.poll
+            lim = int(mem_gb * 3 * (1 << 30))
             resource.setrlimit(resource.RLIMIT_AS, (lim, lim))
     return f
 
@@ -55,6 +56,8 @@ class Proc:
         self.p = subprocess.Popen(self.cmd, cwd=HARNESS_DIR, env=env(), stdout=self.log,
                                   stderr=subprocess.STDOUT, preexec_fn=_limits(mem_gb))
         self.timed_out = False
+        self.mem_exceeded = False
+        self.mem_limit_gb = mem_gb
         self.peak_rss_gb = 0.0
         self._last_sample = 0.0
 
@@ -71,6 +74,11 @@ class Proc:
             self._last_sample = time.time()
             self.sample_rss()
         r = self.p.poll()
+        if r is None and self.mem_limit_gb and self.peak_rss_gb > self.mem_limit_gb:
+            self.mem_exceeded = True
+            kill_group(self.p)
+            self.p.wait()
+            r = self.p.returncode
         if r is None and time.time() - self.t0 > self.cap_s:
             self.timed_out = True
             kill_group(self.p)
@@ -144,9 +152,12 @@ def find_goto(name, slot_dir):
     return c[-1] if c else None
 
 
-def compute_unwindset(name, slot_dir, k, log_path):
+def compute_unwindset(name, slot_dir, kk, log_path):
     """per-loop bounds for the data-dependent generator loops, derived from the goto binary of THIS build.
+    kk = (kp, kn): GEN bound on the mover's pawns / other non-king men per kind.
     Loops that are not recognised keep the harness default (and its unwinding assertion)."""
+    kp, kn = kk if isinstance(kk, (tuple, list)) else (kk, kk)
+    k = max(kp, kn)
     if not codegen_only(name, slot_dir, log_path):
         return None, 'codegen failed'
     out = find_goto(name, slot_dir)
@@ -162,19 +173,20 @@ def compute_unwindset(name, slot_dir, k, log_path):
         except Exception:
             src = ''
         n = None
-        if 'MoveGenImpl' in lid or 'movegen' in lid and ('san_candidates' in lid or 'san_pawn_capture' in lid):
-            if 'for src in' in src:
-                n = k + 2
-            elif 'do_gen_brq' in lid:
-                n = 29
+        if 'MoveGenImpl' in lid or ('movegen' in lid and ('san_candidates' in lid or 'san_pawn_capture' in lid)):
+            outer = 'for src in' in src
+            if 'do_gen_brq' in lid:
+                n = (kn + 2) if outer else 29            # sliders: kn pieces; <= 27 destinations
             elif 'do_gen_kn' in lid:
-                n = 10
+                n = (max(kn, 1) + 2) if outer else 10   # shared by king (1) and knights (kn); <= 8 destinations
+            elif 'pawn' in lid:
+                n = kp + 2                               # one destination per pawn and loop
             else:
                 n = k + 2
         elif 'DefaultPrechecker' in lid and 'pinned' in lid:
             n = 6
-        elif 'retain' in lid or 'ArrayVec' in lid and 'drop' not in lid:
-            n = 48 * k + 60
+        elif 'retain' in lid or ('ArrayVec' in lid and 'drop' not in lid):
+            n = 8 + 12 * kp + 27 * kn * 3 + 8 * kn + 10
         if n is not None:
             us.append('%s:%d' % (lid, n))
             notes.append('%s:%d (%s:%d %s)' % (lid[-40:], n, os.path.basename(f), line, src.strip()[:50]))
